@@ -278,8 +278,6 @@ var c14GateExceptions = ExcTable{
 	"js_parser.(*parser).insertStmtsAfterSuperCall &js_ast.ESpread{}":                "class-field lowering inside a derived-class constructor (needs class syntax, which every engine/ES target has later than arrows and spread); could only matter under a `supported` override and could not be reproduced",
 	"js_parser.(*parser).visitStmts SLocal{Kind: LocalLet}":                          "temporaries that may be captured inside a loop; requested only by class lowering (innerClassNameRef), which needs class syntax and therefore `let`; could only matter under a `supported` override and could not be reproduced (a user-written let is rejected first)",
 	"linker.(*linkerContext).generateCodeForLazyExport &js_ast.ETemplate{}":          "CSS-modules `composes`: every part is a local-name string after renaming, and the printer folds such templates into a plain string (InlinePrimitivesIntoTemplate) — verified for same-file and cross-file composes with --target=ie11",
-	"linker.(*linkerContext).generateEntryPointTailJS &js_ast.EAwait{}":              "preserving: only when the entry point IsAsyncOrHasAsyncDependency, i.e. the input itself uses top-level await, which the parser gated with markSyntaxFeature(TopLevelAwait)",
-	"linker.(*linkerContext).shouldRemoveImportExportStmt &js_ast.EAwait{}":          "preserving: only when the imported file IsAsyncOrHasAsyncDependency, i.e. the input itself uses top-level await, which the parser gated with markSyntaxFeature(TopLevelAwait)",
 }
 
 func init() {
@@ -359,6 +357,25 @@ func c14IntroduceGate(p *Prog) *RuleResult {
 			}
 			if wrapped {
 				r.OK(key, true, "passed directly to a gate wrapper that lowers the node when compat."+s.feature+" is unsupported")
+				continue
+			}
+		}
+		// an `await` the linker generates around a module wrapper call is preserving when it is
+		// conditional on IsAsyncOrHasAsyncDependency: that flag is only ever set for files whose own
+		// source (or a static dependency's) uses top-level await, which the parser gated with
+		// markSyntaxFeature(TopLevelAwait)
+		if s.feature == "AsyncAwait" && strings.Contains(s.what, "EAwait") {
+			onFlag := false
+			for _, ifi := range controlDepIfsTransitive(s.instr.Block()) {
+				sliceCond(ifi.Cond, func(v ssa.Value) bool {
+					if fa, ok := v.(*ssa.FieldAddr); ok && fieldAddrName(fa) == "IsAsyncOrHasAsyncDependency" {
+						onFlag = true
+					}
+					return true
+				})
+			}
+			if onFlag {
+				r.OK(key, true, "preserving: generated only when a module's IsAsyncOrHasAsyncDependency flag is set, i.e. the input itself uses top-level await, which the parser gated with markSyntaxFeature(TopLevelAwait)")
 				continue
 			}
 		}
